@@ -732,6 +732,67 @@ def splice_index_lists(prog):
     return done
 
 
+# ---------------------------------------------------------------------------------------- P23 (arguments of defaulted parameters by keyword)
+def keyword_defaults(prog):
+    """P23: in calls of a repository class (constructor) or of a method / function whose name has one signature in the whole
+    package, an argument bound to a parameter WITH a default is written as a keyword argument (in signature order after the
+    positional ones); arguments of parameters without default stay positional.  `B(C, xi, d, T, True)` and
+    `B(C, xi, d, T=T, parametric=True)` get one form."""
+    sigs = {}
+
+    def sig_of(fnode, drop_self):
+        a = fnode.args
+        if a.vararg or a.posonlyargs:
+            return None
+        names = [x.arg for x in a.args]
+        nd = len(a.defaults)
+        if drop_self:
+            if not names:
+                return None
+            names = names[1:]
+        return (tuple(names), nd)
+    for m in prog.modules.values():
+        for c in m.classes.values():
+            init = c.methods.get("__init__")
+            if init is not None:
+                sigs.setdefault(("class", c.name), set()).add(sig_of(init.node, True))
+            for name, f in c.methods.items():
+                if name.startswith("__"):
+                    continue
+                is_static = any(isinstance(d, ast.Name) and d.id == "staticmethod" for d in f.node.decorator_list)
+                sigs.setdefault(("method", name), set()).add(sig_of(f.node, not is_static))
+        for name, f in m.functions.items():
+            sigs.setdefault(("func", name), set()).add(sig_of(f.node, False))
+    count = 0
+    for m in prog.modules.values():
+        for n in ast.walk(m.tree):
+            if not isinstance(n, ast.Call) or any(isinstance(a, ast.Starred) for a in n.args) or any(k.arg is None for k in n.keywords):
+                continue
+            key = None
+            if isinstance(n.func, ast.Name):
+                key = ("class", n.func.id) if ("class", n.func.id) in sigs else (("func", n.func.id) if ("func", n.func.id) in sigs and n.func.id in m.functions else None)
+            elif isinstance(n.func, ast.Attribute) and isinstance(n.func.value, ast.Name) and n.func.value.id == "self":
+                key = ("method", n.func.attr) if ("method", n.func.attr) in sigs else None
+            if key is None or key[0] != "class":
+                # methods and functions: the rules read their arguments by position (get_p_control_at(stage, k)); only constructors are normalised
+                continue
+            ss = sigs[key]
+            if len(ss) != 1 or None in ss:
+                continue
+            names, nd = next(iter(ss))
+            npos = len(names) - nd
+            if len(n.args) <= npos or len(n.args) > len(names):
+                continue
+            extra = n.args[npos:]
+            kws = [ast.keyword(arg=names[npos + i], value=v) for i, v in enumerate(extra)]
+            if {k.arg for k in kws} & {k.arg for k in n.keywords}:
+                continue
+            n.args = n.args[:npos]
+            n.keywords = kws + n.keywords
+            count += 1
+    return count
+
+
 # ---------------------------------------------------------------------------------------- P21 (guard clauses re-nested)
 def _always_exits(stmts):
     if not stmts:
@@ -1081,7 +1142,7 @@ def _aug_on_known_lists(tree):
 
 
 def canonicalise(prog):
-    total = 0
+    total = keyword_defaults(prog)
     for m in prog.modules.values():
         c = _Canon()
         if os.environ.get("RKVERIF_P21", "0") == "1":   # experimental: re-nesting every guard clause changes too many baseline shapes; the rules read paths instead (ceval.run_path)
